@@ -34,6 +34,18 @@ type Cfg struct {
 	RDFF     string `json:"rdff,omitempty"`   // *read-default-float-format* on the reading side
 	Via      string `json:"via,omitempty"`    // "" = Go API (Printer + ReadString), "lisp" = write-to-string / read-from-string
 	Chunks   []int  `json:"chunks,omitempty"` // wire only: sizes of the pieces the byte stream is delivered in
+	// Session (wire only): index into wireSessions, settings of the user's printer variables while the message is written
+	Session int `json:"session,omitempty"`
+}
+
+// wireSessions are settings of the session's printer control variables; a wire message must not depend on them.
+var wireSessions = []string{
+	"",
+	"(setq *print-base* 16 *print-radix* t)",
+	"(setq *print-level* 1 *print-length* 1)",
+	"(setq *print-lines* 1 *print-right-margin* 8 *print-pretty* t)",
+	"(setq *print-case* :upcase *print-escape* nil *print-readably* nil)",
+	"(setq *print-base* 2 *print-level* 0 *print-length* 0 *print-array* nil *print-pretty* nil)",
 }
 
 // Case is an object and a configuration.
@@ -522,6 +534,14 @@ func runWire(c Case) *h.Result {
 	msg := build(c.Obj)
 	var buf bytes.Buffer
 	var err error
+	if c.Cfg.Session > 0 && c.Cfg.Session < len(wireSessions) {
+		saved := *slip.DefaultPrinter()
+		defer func() { *slip.DefaultPrinter() = saved }()
+		if o := ev.Eval(slip.NewScope(), wireSessions[c.Cfg.Session]); o.Kind != ev.Value {
+			return h.Fail("harness: %s => %s", wireSessions[c.Cfg.Session], o)
+		}
+		res.Classes = append(res.Classes, fmt.Sprintf("wire:session-%d", c.Cfg.Session))
+	}
 	out := ev.Try(func() slip.Object {
 		err = swank.WriteWireMessage(&buf, msg)
 		// a second message follows on the same stream
@@ -910,6 +930,9 @@ func genWire(rt *rapid.T) Case {
 	n := rapid.IntRange(0, 4).Draw(rt, "nchunks")
 	for i := 0; i < n; i++ {
 		c.Cfg.Chunks = append(c.Cfg.Chunks, rapid.IntRange(1, 12).Draw(rt, "chunk"))
+	}
+	if rapid.IntRange(0, 1).Draw(rt, "usersession") == 1 {
+		c.Cfg.Session = rapid.IntRange(1, len(wireSessions)-1).Draw(rt, "session")
 	}
 	return c
 }
